@@ -46,24 +46,26 @@ extern "C" {
 unsafe fn read_out(s: *mut Suggestion) -> Vec<(*mut c_char, String)> {
     let r: &Suggestion = &*s;
     let mut out = Vec::new();
-    let mut take = |p: *mut c_char, expect: String| {
+    let mut take_tagged = |p: *mut c_char, expect: String, tag: &str| {
         assert!(!p.is_null());
         // NUL-terminated valid UTF-8 equal to the value the Rust API reports
-        assert_eq!(CStr::from_ptr(p).to_str().unwrap(), expect);
+        assert_eq!(CStr::from_ptr(p).to_str().unwrap(), expect, "[{}] string handed to the C host differs from the value of the Rust API", tag);
         out.push((p, expect));
     };
+    // the pre-edit text is where the ANSI conversion happens (C16): the C host sees exactly what Suggestion::get_pre_edit_text gives
+    macro_rules! take { ($p:expr, $e:expr) => { take_tagged($p, $e, "C19") }; ($p:expr, $e:expr, $t:expr) => { take_tagged($p, $e, $t) }; }
     assert_eq!(riti_suggestion_is_lonely(s), r.is_lonely());
     assert_eq!(riti_suggestion_is_empty(s), r.is_empty());
     if r.is_lonely() {
-        take(riti_suggestion_get_lonely_suggestion(s), r.get_lonely_suggestion().to_string());
-        take(riti_suggestion_get_pre_edit_text(s, 0), r.get_pre_edit_text(0));
+        take!(riti_suggestion_get_lonely_suggestion(s), r.get_lonely_suggestion().to_string());
+        take!(riti_suggestion_get_pre_edit_text(s, 0), r.get_pre_edit_text(0), "C16 C19");
     } else {
         assert_eq!(riti_suggestion_get_length(s), r.len());
         assert_eq!(riti_suggestion_previously_selected_index(s), r.previously_selected_index());
-        take(riti_suggestion_get_auxiliary_text(s), r.get_auxiliary_text().to_string());
+        take!(riti_suggestion_get_auxiliary_text(s), r.get_auxiliary_text().to_string());
         for i in 0..r.len() {
-            take(riti_suggestion_get_suggestion(s, i), r.get_suggestions()[i].clone());
-            take(riti_suggestion_get_pre_edit_text(s, i), r.get_pre_edit_text(i));
+            take!(riti_suggestion_get_suggestion(s, i), r.get_suggestions()[i].clone());
+            take!(riti_suggestion_get_pre_edit_text(s, i), r.get_pre_edit_text(i), "C16 C19");
         }
     }
     out
